@@ -571,6 +571,43 @@ def serDoc (fb : Bool) : List (Str × Bool) → Store → Mgr → Doc → List (
     | .ok (d', none) => serDoc fb r q.1 q.2.1 d' acc
     | .ok (d', some (dp, l)) => serDoc fb r q.1 q.2.1 d' (acc ++ [(u, dp, l)])
 
+/-! ### the RDF/XML serializer (`XMLSerializer.__bindings`, `predicate`) -/
+
+/-- `compute_qname_strict(u)` (generate) for a sequence of IRIs; the first exception ends it -/
+def strictSeq : List Str → Store → Mgr → List QN → Store × Mgr × Except Err (List QN)
+  | [], st, m, acc => (st, m, .ok acc)
+  | u :: r, st, m, acc =>
+    let q := Mgr.computeQnameStrict st m u true
+    match q.2.2 with
+    | .error e => (q.1, q.2.1, .error e)
+    | .ok a => strictSeq r q.1 q.2.1 (acc ++ [a])
+
+def strRdf : Str := [114, 100, 102]   -- "rdf"
+/-- the constant `RDFNS` of rdfxml.py -/
+def rdfNs : Str := [104, 116, 116, 112, 58, 47, 47, 119, 119, 119, 46, 119, 51, 46, 111, 114, 103, 47, 49, 57, 57, 57, 47, 48, 50, 47, 50, 50, 45, 114, 100, 102, 45, 115, 121, 110, 116, 97, 120, 45, 110, 115, 35]
+
+/-- `XMLSerializer.serialize`: `__bindings()` — `compute_qname_strict(p)` for every predicate of the graph
+    (`preds`: the set of predicates in its iteration order), collected in a dict prefix ↦ namespace, `rdf`
+    added (AssertionError if `rdf` is there with another namespace) — gives the `xmlns` declarations; then
+    `qname_strict(p)` for the predicate of every statement written (`stmts`). -/
+def serXml (preds stmts : List Str) (st : Store) (m : Mgr) : Store × Mgr × Except Err (List (Str × Str)) :=
+  let r1 := strictSeq preds st m []
+  match r1.2.2 with
+  | .error e => (r1.1, r1.2.1, .error e)
+  | .ok ans =>
+    let t := ans.foldl (fun t a => aset t a.1 a.2.1) []
+    let t' : Option (List (Str × Str)) :=
+      match alookup t strRdf with
+      | some n => if n = rdfNs then some t else none
+      | none => some (aset t strRdf rdfNs)
+    match t' with
+    | none => (r1.1, r1.2.1, .error .Other)
+    | some t' =>
+      let r2 := strictSeq stmts r1.1 r1.2.1 []
+      match r2.2.2 with
+      | .error e => (r2.1, r2.2.1, .error e)
+      | .ok _ => (r2.1, r2.2.1, .ok t')
+
 /-! ### histories -/
 
 inductive Op
@@ -590,6 +627,7 @@ inductive Op
   | ser (m : Bool) (s p o : Str)
   | serdoc (m : Bool) (fb : Bool) (qs : List (Str × Bool))
   | sertrig (fb : Bool) (cs : List (Bool × List (Str × Bool)))
+  | serxml (m : Bool) (preds stmts : List Str)
   deriving Repr
 
 structure St where
@@ -653,6 +691,12 @@ def St.step (s : St) : Op → St × Out
       | .ok (d, _) => .doc d.table
       | .error e => .err e)
 
+  | .serxml i preds stmts =>
+    let r := serXml preds stmts s.store (s.mgr i)
+    (s.put i (r.1, r.2.1),
+      match r.2.2 with
+      | .ok t => .doc t
+      | .error e => .err e)
   | .sertrig fb cs =>
     -- the harness calls `reset()` on both managers right after the serialisation
     let r := serTrig fb cs s Doc.empty []
